@@ -55,6 +55,34 @@ Proof.
   apply pair_eqb_eq in H1. apply N.eqb_eq in H2. apply IH in H3. now subst.
 Qed.
 
+Lemma ap_eqb_eq x y : ap_eqb x y = true -> x = y.
+Proof.
+  unfold ap_eqb. intros H. repeat (apply andb_true_iff in H; destruct H as [H ?]).
+  repeat match goal with
+         | h : (_ =? _) = true |- _ => apply N.eqb_eq in h
+         | h : Bool.eqb _ _ = true |- _ => apply Bool.eqb_prop in h
+         end.
+  destruct x, y. cbn in *. subst. reflexivity.
+Qed.
+
+Lemma h_eqb_eq x y : h_eqb x y = true -> x = y.
+Proof.
+  unfold h_eqb. intros H. apply andb_true_iff in H. destruct H as [H1 H2].
+  apply N.eqb_eq in H1. apply Bool.eqb_prop in H2. destruct x, y. cbn in *. now subst.
+Qed.
+
+Lemma opt_eqb_eq {A} (eqb : A -> A -> bool) (Heq : forall x y, eqb x y = true -> x = y) x y :
+  opt_eqb eqb x y = true -> x = y.
+Proof. destruct x, y; cbn; try discriminate; auto. intros H. f_equal. now apply Heq. Qed.
+
+Lemma aview_eqb_eq a b : aview_eqb a b = true -> a = b.
+Proof.
+  revert b. induction a as [|[k [p h]] r IH]; intros [|[k' [p' h']] r']; cbn [aview_eqb]; try discriminate; [reflexivity|].
+  intros H. apply andb_true_iff in H. destruct H as [H H4]. apply andb_true_iff in H. destruct H as [H H3].
+  apply andb_true_iff in H. destruct H as [H1 H2].
+  apply pair_eqb_eq in H1. apply (opt_eqb_eq _ ap_eqb_eq) in H2. apply (opt_eqb_eq _ h_eqb_eq) in H3. apply IH in H4. now subst.
+Qed.
+
 Lemma snap_eqb_eq a b : snap_eqb a b = true -> a = b.
 Proof.
   unfold snap_eqb. intros H. repeat (apply andb_true_iff in H; destruct H as [H ?]).
@@ -63,6 +91,7 @@ Proof.
          | h : nlist_eqb _ _ = true |- _ => apply nlist_eqb_eq in h
          | h : plist_eqb _ _ = true |- _ => apply plist_eqb_eq in h
          | h : llist_eqb _ _ = true |- _ => apply llist_eqb_eq in h
+         | h : aview_eqb _ _ = true |- _ => apply aview_eqb_eq in h
          | h : (_ =? _) = true |- _ => apply N.eqb_eq in h
          | h : Bool.eqb _ _ = true |- _ => apply Bool.eqb_prop in h
          end.
